@@ -8,6 +8,8 @@
 
 #include <sstream>
 #include <bitset>
+#include <cstring>
+#include <algorithm>
 #include <type_traits>
 #include <arpa/inet.h>
 #include <sys/socket.h>
@@ -35,8 +37,13 @@ static std::string get_readable_ip_address(std::string& wire_ip, bool ipv6)
         buflen = INET_ADDRSTRLEN + 4;
     }
 
+    // An address can be stored shorter than the full address length (address prefix lengths in
+    // Storage parameters): the missing bytes are zero
+    unsigned char addr[16] = {0};
+    std::memcpy(addr, wire_ip.data(), std::min<std::size_t>(wire_ip.size(), ipv6 ? 16 : 4));
+
     char addrBuf[buflen];
-    auto ret = inet_ntop(ipv, wire_ip.data(), addrBuf, sizeof(addrBuf));
+    auto ret = inet_ntop(ipv, addr, addrBuf, sizeof(addrBuf));
 
     if (!ret)
         return wire_ip;
